@@ -18,7 +18,7 @@ import subprocess
 import sys
 import sysconfig
 
-from tools import common, shroudrun
+from tools import common, shroudrun, extract_pystmts
 from tools.gen import pygen
 
 LEVEL = "proof"
@@ -43,8 +43,18 @@ MANIFEST = dict(
          "opaque value), values outside the C type's range (OverflowError).",
     technique="Lean 4 proof by induction over the parameter list + differential correspondence on emitted text and on compiled extensions",
 )
-MODULES = ["ShroudVerif.Props.C03"]
+MODULES = ["ShroudVerif.Props.C03", "ShroudVerif.Props.C03Tables"]
 THEOREMS = {
+    "ShroudVerif.Props.C03Tables": [
+        "Shroud.PyTables.stmts_one_address_per_unit",
+        "Shroud.PyTables.stmts_goto_fail_consistent",
+        "Shroud.PyTables.stmts_acquire_release",
+        "Shroud.PyTables.stmts_created_has_object",
+        "Shroud.PyTables.types_parse_unit_arity",
+        "Shroud.PyTables.types_build_arity",
+        "Shroud.PyTables.types_ctor_arity",
+        "Shroud.PyTables.units_classified",
+    ],
     "ShroudVerif.Props.C03": [
         "Shroud.PyDispatch.call_equiv_prefix_partial",
         "Shroud.PyDispatch.call_equiv_prefix_nokw_partial",
@@ -131,30 +141,8 @@ class Interner:
 
 def expected_unit(arg, options):
     """the format unit wrap_function will use for a Python-visible argument (same table lookups)"""
-    from shroud import wrapp
     tm = arg.typemap
-    attrs, meta = arg.attrs, arg.metaattrs
-    intent = meta["intent"]
-    sgroup = tm.sgroup
-    spointer = arg.get_indirect_stmt()
-    deref = meta["deref"] or "pointer"
-    blk = None
-    if arg.is_function_pointer() or attrs["implied"]:
-        pass
-    else:
-        if sgroup == "char":
-            stmts = ["py", sgroup, spointer, intent] + (["charlen"] if attrs["charlen"] else [])
-        elif tm.base == "struct":
-            stmts = ["py", sgroup, spointer, intent, tm.PY_struct_as]
-        elif tm.base == "vector":
-            stmts = ["py", sgroup, intent, options.PY_array_arg]
-        elif attrs["rank"] or attrs["dimension"]:
-            stmts = ["py", sgroup, spointer, intent, deref, options.PY_array_arg]
-        elif deref == "raw":
-            stmts = ["py", sgroup, spointer, intent, deref]
-        else:
-            stmts = ["py", sgroup, spointer, intent]
-        blk = wrapp.lookup_stmts(stmts)
+    blk = arg_blk(arg, options)
     if blk is not None and blk.parse_format:
         return blk.parse_format, None
     if tm.PY_PyTypeObject:
@@ -164,19 +152,14 @@ def expected_unit(arg, options):
     return tm.PY_format, None
 
 
-def accepted_tags(unit, typeobj, clsids):
+def exact_tag(unit, typeobj, clsids):
+    """the value tag an `O!` unit demands ('-' for every other unit: its value classes come from the
+    regenerated table Gen.PyStmts.unitClasses)"""
     if unit.endswith("!"):
         if typeobj == "PyBool_Type":
-            return [TAG_BOOL]
-        return [clsids.setdefault(typeobj, TAG_CLS0 + len(clsids))]
-    u = unit[:1]
-    if u in INT_UNITS:
-        return [TAG_INT, TAG_BOOL]
-    if u in FLOAT_UNITS:
-        return [TAG_INT, TAG_FLOAT, TAG_BOOL]
-    if u in "sz":
-        return [TAG_STR]
-    return [TAG_INT, TAG_STR, TAG_FLOAT, TAG_BOOL, TAG_NONE] + list(range(TAG_CLS0, TAG_CLS0 + 8))
+            return str(TAG_BOOL)
+        return str(clsids.setdefault(typeobj, TAG_CLS0 + len(clsids)))
+    return "-"
 
 
 def node_params(node, intern, clsids):
@@ -189,12 +172,83 @@ def node_params(node, intern, clsids):
         hidden = 1 if arg.attrs["hidden"] else 0
         unit, typeobj = expected_unit(arg, node.options)
         unit = unit or ""
-        acc = accepted_tags(unit, typeobj, clsids) if unit else []
         enc = "%d,%d,%d,%d,%d,%s,%s" % (
             intern(arg.name), intent, 1 if arg.init is not None else 0, implied, hidden,
-            ".".join(str(ord(c)) for c in unit) or "-", ".".join(map(str, acc)) or "-")
+            ".".join(str(ord(c)) for c in unit) or "-", exact_tag(unit, typeobj, clsids))
         res.append((arg.name, enc))
     return res
+
+
+def arg_blk(arg, options):
+    """the statement block wrap_function selects for an argument (None for implied / function pointers)"""
+    from shroud import wrapp
+    tm = arg.typemap
+    attrs, meta = arg.attrs, arg.metaattrs
+    intent = meta["intent"]
+    sgroup = tm.sgroup
+    spointer = arg.get_indirect_stmt()
+    deref = meta["deref"] or "pointer"
+    if arg.is_function_pointer() or attrs["implied"]:
+        return None
+    if sgroup == "char":
+        stmts = ["py", sgroup, spointer, intent] + (["charlen"] if attrs["charlen"] else [])
+    elif tm.base == "struct":
+        stmts = ["py", sgroup, spointer, intent, tm.PY_struct_as]
+    elif tm.base == "vector":
+        stmts = ["py", sgroup, intent, options.PY_array_arg]
+    elif attrs["rank"] or attrs["dimension"]:
+        stmts = ["py", sgroup, spointer, intent, deref, options.PY_array_arg]
+    elif deref == "raw":
+        stmts = ["py", sgroup, spointer, intent, deref]
+    else:
+        stmts = ["py", sgroup, spointer, intent]
+    return wrapp.lookup_stmts(stmts)
+
+
+def result_blk(node):
+    from shroud import wrapp
+    ast = node.ast
+    tm = ast.typemap
+    options = node.options
+    sgroup = tm.sgroup
+    if ast.is_ctor():
+        return None
+    if tm.base == "struct":
+        stmts = ["py", sgroup, "result", options.PY_struct_arg]
+    elif tm.base == "vector":
+        stmts = ["py", sgroup, "result", options.PY_array_arg]
+    elif sgroup == "native":
+        spointer = ast.get_indirect_stmt()
+        stmts = ["py", sgroup, spointer, "result"]
+        if spointer != "scalar":
+            deref = ast.metaattrs["deref"] or "pointer"
+            stmts.append(deref)
+            if deref != "scalar":
+                stmts.append(options.PY_array_arg)
+    else:
+        stmts = ["py", sgroup, ast.get_indirect_stmt(), "result"]
+    return wrapp.lookup_stmts(stmts)
+
+
+def build_unit(tm, blk):
+    """the Py_BuildValue unit intent_out uses"""
+    if blk is not None and blk.object_created:
+        return "O"
+    return tm.PY_build_format or tm.PY_format or ""
+
+
+def build_request(node, intern):
+    """(result build unit, name=unit;...) for the model's prediction of PyBuild_format"""
+    def codes(u):
+        return ".".join(str(ord(c)) for c in u) or "-"
+    ru = "-"
+    if node.ast.get_subprogram() == "function" and not node.ast.is_ctor():
+        ru = codes(build_unit(node.ast.typemap, result_blk(node)))
+    um = []
+    for arg in node.ast.params:
+        if arg.metaattrs["intent"] in ("out", "inout"):
+            um.append("%d=%s" % (intern(arg.name), codes(build_unit(arg.typemap, arg_blk(arg, node.options)))))
+    return ru, ";".join(um) or "~"
 
 
 def enc_params(params):
@@ -323,7 +377,7 @@ def extract_function(body, node, cname=None):
                     it = item_of(a)
                     if not items or items[-1] != it:
                         items.append(it)
-                ex["shape"], ex["build"], ex["build_fmt"] = "tuple", items, mm.group(1)
+                ex["shape"], ex["build"], ex["build_fmt"], ex["build_nargs"] = "tuple", items, mm.group(1), len(args)
             else:
                 ex["shape"], ex["build"] = "?" + last, None
     return ex
@@ -363,7 +417,7 @@ def tie_emitted(ctx, drv, lib, calls, texts, dis, info):
             params = node_params(node, intern, clsids)
             key = (cname, "__init__" if node.ast.is_ctor() else node.ast.name)
             info.setdefault(key, []).append((node, params))
-            reqs.append("gen %s %s" % (node_kind(node), enc_params(params)))
+            reqs.append("gen %s %s %s %s" % ((node_kind(node), enc_params(params)) + build_request(node, intern)))
             todo.append((cname, node, params))
     model = drv.run(reqs)
     rev = {v: k for k, v in intern.ids.items()}
@@ -424,6 +478,12 @@ def tie_emitted(ctx, drv, lib, calls, texts, dis, info):
                 dis.append({"where": where, "what": "returned items", "emitted": ex["build"], "model": m_build})
             if len(m_build) > 1:
                 ctx.nontrivial("tuple:" + where)
+                m_bfmt = dec_codes(g["bfmt"])
+                if ex.get("build_fmt") != m_bfmt:
+                    dis.append({"where": where, "what": "Py_BuildValue format", "emitted": ex.get("build_fmt"), "model": m_bfmt})
+                if str(ex.get("build_nargs")) != g["bargs"]:
+                    dis.append({"where": where, "what": "Py_BuildValue argument count", "emitted": ex.get("build_nargs"),
+                                "model": g["bargs"]})
     # overload dispatch
     for cls, functions, overloaded in calls:
         cname = cls.name if cls is not None else None
@@ -1012,6 +1072,11 @@ def run(ctx):
     thorough = ctx.tier == "thorough"
     DIST["overloads"].clear()
     DIST["arities"].clear()
+    try:
+        _changed, tstats, _live = extract_pystmts.regenerate()
+        ctx.note("translator (py_statements / typemap PY_* -> Gen/PyStmts.lean)", tstats)
+    except (extract_pystmts.Unclassified, RuntimeError) as e:
+        ctx.tie_broken("pystmts-translator", str(e)[:800])
     ok = ctx.lean(MODULES, THEOREMS, extra_targets=("drv_pydispatch",))
     drv = common.Driver("drv_pydispatch")
     r = common.rng("c03")
